@@ -186,7 +186,7 @@ type vfPos struct {
 }
 
 func vfParsePos(s string) (p vfPos, err bool) {
-	if s == "err" {
+	if s == "err" || s == "tie" {
 		return p, true
 	}
 	if s == "none" {
